@@ -148,6 +148,49 @@ pub fn judge(lit: &str, binary: bool, input: &[u8], spec: &Spec) -> (bool, Optio
     }
 }
 
+/// The header is data the parser hands out (`header()`, before anything else is read): whenever the
+/// parser constructor accepts it, its numbers are the numbers of the first line and respect the
+/// limits that only involve the header: 2M + 1 <= MAX_CODE and I + L + A <= M (as big integers).
+pub fn header_meaning(format: &str, lit: &str, input: &[u8]) -> Option<String> {
+    let ex = mc_core::generic::run_spec(crate::subjects::make(&format!("{format}-skip"), lit).as_ref(), input, &Spec::oneshot());
+    let h = ex.items.first()?.strip_prefix("header ")?.to_string();
+    let mut got: Vec<u128> = Vec::new();
+    let mut cur = String::new();
+    for c in h.chars().chain(std::iter::once(' ')) {
+        if c.is_ascii_digit() {
+            cur.push(c);
+        } else if !cur.is_empty() {
+            got.push(cur.parse().ok()?);
+            cur.clear();
+        }
+    }
+    if got.len() != 9 {
+        return None;
+    }
+    let line = input.split(|b| *b == b'\n').next()?;
+    let toks: Vec<&[u8]> = line.split(|b| *b == b' ').collect();
+    let mut want: Vec<u128> = Vec::new();
+    for t in toks.iter().skip(1) {
+        let t = std::str::from_utf8(t).ok()?;
+        want.push(t.parse().ok()?);
+    }
+    while want.len() < 9 {
+        want.push(0);
+    }
+    if want != got {
+        return Some(format!("the header handed out is {got:?}, the first line says {want:?}"));
+    }
+    let max_code: u128 = max_code_of(lit).parse().ok()?;
+    let (m, i, l, a) = (got[0], got[1], got[2], got[4]);
+    if 2 * m + 1 > max_code {
+        return Some(format!("header accepted although 2M + 1 = {} exceeds the largest literal code {max_code}", 2 * m + 1));
+    }
+    if i + l + a > m {
+        return Some(format!("header accepted although I + L + A = {i} + {l} + {a} exceeds M = {m}"));
+    }
+    None
+}
+
 /// Partial consumption of the streaming API (see subjects::AagMixed): first deviation, if any.
 pub fn partial_sections(format: &str, lit: &str, input: &[u8]) -> Option<(u8, String)> {
     use crate::subjects::{make, mixed_expected, mixed_limits, MIXED_MODES};
@@ -194,6 +237,12 @@ pub fn run(tier: Tier, report: &mut Report, family_docs: &dyn Fn(&str) -> Vec<Do
                         acc.evaluations += 1;
                         acc.transitions += 1;
                         let (accepted, verdict) = judge(lit, binary, input, &spec);
+                        if matches!(spec.grain, mc_core::source::Grain::OneShot) {
+                            if let Some(why) = header_meaning(format, lit, input) {
+                                let key = format!("{format}/accepted-meaning/header");
+                                acc.violation_with(&key, input.len() as u64, || (format!("{format} parser <{lit}> on {:?}: {why}", show(input)), json!({"property": "C06", "format": format, "lit": lit, "input_hex": hex(input), "input": show(input), "spec": spec.to_json(), "header_only": true})));
+                            }
+                        }
                         if accepted {
                             acc.nontrivial += 1;
                             acc.count("accepted", 1);
@@ -244,6 +293,14 @@ pub fn replay(v: &mc_core::Value) -> (bool, String) {
     let lit = v["lit"].as_str().unwrap();
     let binary = v["format"] == "aig";
     let spec = Spec::from_json(&v["spec"]);
+    if v["header_only"].as_bool().unwrap_or(false) {
+        let why = header_meaning(v["format"].as_str().unwrap(), lit, &input);
+        return (why.is_some(), format!("{} parser <{lit}> on {:?}\n  {}\n", v["format"].as_str().unwrap(), show(&input), why.unwrap_or_else(|| "the header handed out is the first line's and respects its own limits".to_string())));
+    }
+    if let Some(mode) = v["partial_mode"].as_u64() {
+        let r = partial_sections(v["format"].as_str().unwrap(), lit, &input);
+        return (r.is_some(), format!("{} streaming parser <{lit}> on {:?} (first recorded mode {mode})\n  {:?}\n", v["format"].as_str().unwrap(), show(&input), r));
+    }
     let (accepted, verdict) = judge(lit, binary, &input, &spec);
     let text = format!(
         "{} parser <{lit}> on {:?}\n  flussab: {:?}\n  reference reader: {:?}\n  {}\n",
